@@ -53,6 +53,11 @@ fn dispatch(prop: &str, tier: &str, seed: u64, rest: &[String]) -> i32 {
         "C02-WORKER" => vh::c02::worker_main(tier.parse().unwrap_or(0), rest[0].parse().unwrap_or(1), &rest[1], rest[2].parse().unwrap_or(1)),
         "C02-SINGLE" => vh::c02::single_main(tier),
         "C02-NEST" => vh::c02::nest_main(tier.parse().unwrap_or(10), rest.first().map_or("packages", |s| s.as_str())),
+        "C09" => {
+            let mut rep = Report::new("C09", ev_tier, seed);
+            vh::c09::run(&mut rep, tier);
+            rep.finish()
+        }
         "C20" => {
             let mut rep = Report::new("C20", ev_tier, seed);
             vh::c20::run(&mut rep, tier);
